@@ -26,7 +26,8 @@ CLAIMS = {
          "at every position, oracle `barriers` on every real layout", "stage order = run order is the executor model's part",
          "invariant induction + differential correspondence", "5 C03"),
  "C04": ("proof: executed layout is a Permutation of the registered systems for programs of any length, id table = executed list, "
-         "groups never over capacity (constants re-read from the source, params_ok re-proved); tie: S1 (shape hook + identification run)",
+         "groups never over capacity (constants re-read from the source, params_ok re-proved); tie: S1 (shape hook + identification run, then "
+         "one more dispatch through the parallel entry point: every top-level system exactly once more, stages of up to 270 groups), S2 run counts",
          "per-dispatch run counts are the executor model's part", "invariant induction + differential correspondence", "5 C04"),
  "C05": ("proof: C05_parallel_dispatch_equals_sequential_dispatch: for every planned program, every value type, every family of "
          "effects that respect the declared access and every initial world, EVERY trace of k parallel dispatches ends in the world "
@@ -125,7 +126,7 @@ CLAIMS = {
          "steps and every operation sequence: wait / wait_without_tl / world / world_mut / setup return only when no job is running "
          "or pending; running() = false only when finished, true while a job runs; a dispatch starts only after the previous job is "
          "complete; the finished work is a sequence of whole dispatch traces (every ordinary system once, C04) and thread-local "
-         "passes contributed only by wait. tie: S7 — random operation sequences on random plans with the REAL AsyncDispatcher, one "
+         "passes contributed only by wait. tie: S8 async configurations (two dispatchers on one pool, dispatch twice, caller inside a foreign pool) and S7 — random operation sequences on random plans with the REAL AsyncDispatcher, one "
          "background system held inside run while the caller polls running(), or jitter; pools 1,2,4,16; the recorded history "
          "(system events + begin/end markers of every call) must be accepted by the extracted acceptor of the state machine; "
          "oracles on the raw log (no open window when an accessor returns, running() never false while a system is inside run, "
